@@ -150,6 +150,8 @@ PT(t, b, i) ==
        ELSE LET n == S32(b, i + 1) IN
             IF n < 0 \/ b[i] # WT(t.e) THEN PBad
             ELSE IF n > (Remain(b, i) - 5) \div MinWire(WT(t.e)) THEN PBad
+            ELSE IF t.e.k \in FixedKinds \ {"bool"} THEN    \* fixed-width elements: no recursion needed
+                 POk(Mat([j \in 1..n |-> Sub(b, i + 5 + (j - 1) * WireW(t.e.k), WireW(t.e.k))]), 5 + n * WireW(t.e.k))
             ELSE PItems(t.e, b, i + 5, n, <<>>, 5)
   ELSE IF k = "map" THEN
        IF Remain(b, i) < 6 THEN PBad
@@ -279,6 +281,12 @@ DV(t, b, i, prior) ==
        ELSE LET n == S32(b, i + 1) IN
             IF n < 0 \/ b[i] # WT(t.e) THEN DBad
             ELSE IF n > (Remain(b, i) - 5) \div MinWire(WT(t.e)) THEN DBad
+            ELSE IF t.e.k \in FixedKinds /\ ~t.e.ptr THEN   \* fixed-width elements: no recursion needed
+                 LET w == WireW(t.e.k) IN
+                 DOk([nil |-> FALSE,
+                      items |-> Mat([j \in 1..n |-> IF t.e.k = "enum" THEN SignExt(Sub(b, i + 5 + (j - 1) * 4, 4))
+                                                     ELSE Sub(b, i + 5 + (j - 1) * w, w)])],
+                     5 + n * w, FALSE, 1)
             ELSE LET r == DItems(t.e, b, i + 5, n, <<>>, 5, FALSE, 0) IN
                  IF r.st # "ok" THEN r ELSE [r EXCEPT !.v = [nil |-> FALSE, items |-> r.v], !.d = r.d + 1]
   ELSE IF k = "map" THEN
@@ -304,6 +312,24 @@ Dec(s, b, dest) == DFields(s, b, 1, dest, {}, <<>>, 0, FALSE, 0)
 
 \* nesting depth of a generically well-formed message
 MsgDepth(b) == SkipD(TSTRUCT, b, 1, 100000)[2]
+
+\* ---------------------------------------------------------------------------
+\* Where the value of a string / binary field lies inside a message (C14): the path `keys`
+\* leads through struct-typed fields to a string / binary field; the result is the 0-based
+\* offset and the length of the payload of its last well-typed occurrence.
+\* ---------------------------------------------------------------------------
+RECURSIVE LocField(_, _, _, _, _), Locate(_, _, _, _)
+LocField(s, b, i, key, found) ==
+  IF b[i] = TSTOP THEN found
+  ELSE LET j == FieldIdx(s, U16(b, i + 1))
+           n == Skip(b[i], b, i + 3, 100000) IN
+       LocField(s, b, i + 3 + n, key,
+                IF j # 0 /\ WT(FieldsOf(s)[j].t) = b[i] /\ FieldsOf(s)[j].key = key THEN i + 3 ELSE found)
+Locate(s, b, i, keys) ==
+  LET p == LocField(s, b, i, keys[1], 0) IN
+  IF p = 0 THEN [ok |-> FALSE, off |-> -1, len |-> -1]
+  ELSE IF Len(keys) = 1 THEN [ok |-> TRUE, off |-> p + 3, len |-> S32(b, p)]
+  ELSE Locate(FieldByKey(s, keys[1]).t.s, b, p, Tail(keys))
 
 \* ---------------------------------------------------------------------------
 \* Normal form of a value after encode + decode into a fresh, default-initialised
